@@ -84,6 +84,7 @@ def shards(tier, seed):
         out.append(("parse", which))
     out.append(("log",))
     out.append(("mode-switch",))
+    out.append(("redefine",))
     return out
 
 
@@ -181,7 +182,7 @@ def run_conv(acc, which):
 def show(o):
     def s(x):
         if hasattr(x, "_units"):
-            return {"magnitude": s(x._magnitude), "units": {k: str(v) for k, v in dict(x._units).items()}}
+            return {"magnitude": s(getattr(x, "_magnitude", None)), "units": {k: str(v) for k, v in dict(x._units).items()}}
         if isinstance(x, tuple):
             return [s(i) for i in x]
         if hasattr(x, "tolist"):
@@ -472,6 +473,71 @@ def run_mode_switch(acc):
     acc.sample({"clause": "mode-switch", "history": ["built with autoconvert=True", "observe; set autoconvert=False"], "probe": "dBm/Hz->mW/Hz", "expected": "DimensionalityError"})
 
 
+# ----------------------------------------------------------------------------- redefining an offset unit
+
+
+def run_redefine(acc):
+    """an offset unit that is defined again (define() under on_redefinition='ignore'/'warn', or a context redefinition)
+    takes its delta counterpart along: conversions of the unit, of its delta and of temperature differences follow the
+    NEW scale and offset, and the old ones come back when the context is left"""
+    pint = core.boot()
+    new = {"degX": (Fraction(1, 2), Fraction(200)), "degZ": (Fraction(3), Fraction(-7, 2))}
+    old = {"degX": (Fraction(3, 7), Fraction(11, 3)), "degZ": (Fraction(2), Fraction(-5, 2))}
+
+    def observe(reg, n):
+        Q = reg.Quantity
+        return {
+            "to-kelvin": call(lambda: Fraction(Q(Fraction(10), n).to("kelvin").magnitude)),
+            "from-kelvin": call(lambda: Fraction(Q(Fraction(300), "kelvin").to(n).magnitude)),
+            "delta-to-kelvin": call(lambda: Fraction(Q(Fraction(10), "delta_" + n).to("kelvin").magnitude)),
+            "difference": call(lambda: Fraction((Q(Fraction(10), n) - Q(Fraction(0), n)).to("kelvin").magnitude)),
+            "offset+delta": call(lambda: Fraction((Q(Fraction(10), n) + Q(Fraction(4), "delta_" + n)).to("kelvin").magnitude)),
+        }
+
+    def want(n, table):
+        a, b = table[n]
+        return {"to-kelvin": ("ok", a * 10 + b), "from-kelvin": ("ok", (300 - b) / a), "delta-to-kelvin": ("ok", a * 10), "difference": ("ok", a * 10), "offset+delta": ("ok", a * 14 + b)}
+
+    for n in new:
+        a, b = new[n]
+        line = f"{n} = {a} * kelvin; offset: {b}"
+        for how in ("define-ignore", "define-warn", "context.redefine", "context-in-text"):
+            acc.ev()
+            acc.nt(("redefine", n, how))
+            case = {"unit": n, "how": how, "new_definition": line}
+            if how.startswith("define"):
+                reg = regs.tiny(TINY_T, non_int_type="Fraction", on_redefinition=how.split("-")[1])
+                observe(reg, n)  # the old definition is used first
+                import warnings
+
+                with warnings.catch_warnings():
+                    warnings.simplefilter("ignore")
+                    reg.define(line)
+                phases = [("after-redefinition", new)]
+            else:
+                if how == "context.redefine":
+                    reg = regs.tiny(TINY_T, non_int_type="Fraction")
+                    c = pint.Context("rd")
+                    c.redefine(line)
+                    reg.add_context(c)
+                else:
+                    reg = regs.tiny(list(TINY_T) + ["@context rd", "    " + line, "@end"], non_int_type="Fraction")
+                observe(reg, n)
+                reg.enable_contexts("rd")
+                phases = [("inside-context", new), ("after-context", old)]
+            for pi_, (phase, table) in enumerate(phases):
+                if phase == "after-context":
+                    reg.disable_contexts()
+                got, exp_ = observe(reg, n), want(n, table)
+                for k in exp_:
+                    # a Context built by hand parses its definition strings without a registry, i.e. with float literals
+                    loose = how == "context.redefine" and got[k][0] == "ok" and abs(float(got[k][1]) - float(exp_[k][1])) <= 1e-12 * max(1.0, abs(float(exp_[k][1])))
+                    if got[k] != exp_[k] and not loose:
+                        acc.violation(["redefinition", k, "OFF", "old-scale-or-offset-survives-the-redefinition" if phase != "after-context" else "redefinition-survives-the-context", how], dict(case, phase=phase), str(exp_[k][1]), show(got[k]))
+    acc.outcome("redefinition")
+    acc.sample({"clause": "redefinition", "unit": "degX", "how": "context.redefine", "new_definition": "degX = 1/2 * kelvin; offset: 200", "expected": "10 degX - 0 degX == 5 K inside the context"})
+
+
 # ----------------------------------------------------------------------------- parsing
 
 
@@ -624,6 +690,8 @@ def run_shard(acc, shard, tier, seed):
         run_log(acc)
     elif k == "mode-switch":
         run_mode_switch(acc)
+    elif k == "redefine":
+        run_redefine(acc)
     else:
         raise core.HarnessError(str(shard))
 
@@ -647,6 +715,8 @@ def replay(rec):
         run_log(acc)
     elif site[0] == "mode-switch":
         run_mode_switch(acc)
+    elif site[0] == "redefinition":
+        run_redefine(acc)
     sites = {tuple(v["site"]) for v in acc.violations}
     return tuple(site) in sites, {"sites_seen": sorted(sites)[:20]}
 
